@@ -47,6 +47,9 @@ pub enum Item {
     /// end-of-directory marker (a slot of 32 zero bytes); whatever follows it in the directory is
     /// "past the end marker": invisible to listing and lookup
     End,
+    /// a sub-directory entry whose start cluster is not a cluster of the volume (damaged entry):
+    /// opening and listing it may fail but must not crash
+    WildDir { name: [u8; 11], cluster: u32 },
 }
 
 #[derive(Clone, Debug, PartialEq)]
@@ -138,6 +141,13 @@ pub fn build_items(items: &[Item], fat32: bool, lfn_cap: usize) -> (Vec<Slot>, V
     for it in items {
         let mut this_junk = false;
         match it {
+            Item::WildDir { name, cluster } => {
+                let mut e = short_entry(&upper11(name), 0x10, 0, 0, &t, fat32);
+                e[26..28].copy_from_slice(&(*cluster as u16).to_le_bytes());
+                e[20..22].copy_from_slice(&((*cluster >> 16) as u16).to_le_bytes());
+                slots.push(Slot::Raw(vec![e]));
+                exp.push(if prev_was_junk { Expect::DontCare } else { Expect::NoName });
+            }
             Item::End => {
                 slots.push(Slot::Raw(vec![[0u8; 32]]));
                 if exp_at_end.is_none() {
@@ -342,15 +352,14 @@ pub fn build_items(items: &[Item], fat32: bool, lfn_cap: usize) -> (Vec<Slot>, V
                 if r[0] == 0 {
                     r[0] = 0x01;
                 }
-                // keep the LFN attribute test unambiguous between crate (mask 0x0F) and specification (mask 0x3F)
-                if r[11] & 0x0F == 0x0F {
-                    r[11] = 0x0F;
-                }
-                // junk must not look like a directory (it would be walked)
-                if r[11] != 0x0F {
+                // a long-name slot is one whose attribute byte, masked with 0x3F, is 0x0F (FAT
+                // specification); 0x1F, 0x2F, 0x3F are odd but ordinary entries.
+                // junk must not look like a directory (the directory comparison would follow it;
+                // directories with wild clusters are a separate item)
+                if r[11] & 0x3F != 0x0F {
                     r[11] &= !0x10;
                 }
-                let is_listed = r[0] != 0xE5 && r[11] != 0x0F;
+                let is_listed = r[0] != 0xE5 && r[11] & 0x3F != 0x0F;
                 slots.push(Slot::Raw(vec![r]));
                 if is_listed {
                     exp.push(Expect::DontCare);
@@ -386,7 +395,7 @@ pub fn to_disk(c: &DirCase) -> (DiskSpec, Vec<Expect>, Vec<Expect>) {
             }
             k += match s {
                 Slot::File { .. } | Slot::Dir { .. } => 1,
-                Slot::Raw(v) => v.iter().filter(|r| r[0] != 0 && r[0] != 0xE5 && r[11] & 0x0F != 0x0F).count(),
+                Slot::Raw(v) => v.iter().filter(|r| r[0] != 0 && r[0] != 0xE5 && r[11] & 0x3F != 0x0F).count(),
             };
         }
         before = before.max(k);
@@ -459,6 +468,12 @@ fn compare_dir(
         let got = match list_via_crate(api, d, mode, surf) {
             Err(p) => return Err(fail(if check_c17 { "C17" } else { "C06" }, "listing-panic", format!("{}: listing panicked: {}", what, p))),
             Ok(Err(e)) => {
+                if !matches!(listing.chain_end, fsck::ChainEnd::Eoc) {
+                    // a directory whose cluster chain is damaged (reached through an entry with a
+                    // wild start cluster): an error is an acceptable answer, a crash is not
+                    acc.class("listing:damaged-chain-refused");
+                    return Ok(());
+                }
                 if check_c06 {
                     return Err(fail("C06", "listing-failed", format!("{}: {}", what, e)));
                 }
@@ -509,6 +524,11 @@ fn compare_dir(
                     exp.push(Expect::DontCare);
                 }
                 if exp.len() == got.len() {
+                    if std::env::var("VERIF_VERBOSE").is_ok() {
+                        for (g, x) in got.iter().zip(exp.iter()) {
+                            eprintln!("  got {:?} attr {:?} lfn {:?}  | expect {:?}", format!("{}", g.e.name), g.e.attributes, g.lfn, x);
+                        }
+                    }
                     for (g, x) in got.iter().zip(exp.iter()) {
                         let lfn = g.lfn.clone().unwrap();
                         match x {
@@ -542,6 +562,7 @@ fn lookups(
     listing: &fsck::DirListing,
     is_root: bool,
     what: &str,
+    lay: &fsck::Layout,
     acc: &mut Acc,
 ) -> Result<(), Failure> {
     let live: Vec<&fsck::DSlot> = listing.slots.iter().filter(|s| matches!(s.kind, SlotKind::Live | SlotKind::Label)).collect();
@@ -637,12 +658,33 @@ fn lookups(
         };
         match r {
             Ok(h) => {
-                let _ = api.close_dir(h, Surf::Raw);
+                // whatever the entry's cluster field holds, listing the opened directory may fail
+                // but must not crash
+                let lr = catch_unwind(AssertUnwindSafe(|| {
+                    let mut n = 0u32;
+                    let r = api.iterate(h, Surf::Raw, &mut |_| n += 1);
+                    (r.is_ok(), n)
+                }));
+                let _ = catch_unwind(AssertUnwindSafe(|| api.close_dir(h, Surf::Raw)));
+                if let Err(p) = lr {
+                    return Err(fail("C06", "listing-panic", format!("{}: listing the directory opened through {:?} panicked: {}", what, name, crate::interp::panic_msg(&p).0)));
+                }
                 if !want_dir {
                     return Err(fail("C06", "open-dir-unlisted", format!("{}: open_dir({:?}) succeeded but the listing has no directory of that name", what, name)));
                 }
             }
             Err(e) => {
+                // an entry whose start cluster is not a cluster of the volume designates no
+                // directory: refusing it as a bad cluster is as good as opening it (and then
+                // listing it without crashing)
+                let wild = first_match.map(|w| { let f = w.first(lay.fat32); f != 0 && !lay.in_range(f) }).unwrap_or(false);
+                if wild && want_dir {
+                    acc.class("lookup:wild-dir-refused");
+                    if crate::interp::ek(&e) != "BadCluster" {
+                        return Err(fail("C06", "open-dir-error-variant", format!("{}: open_dir({:?}) = {:?} for an entry with a start cluster outside the volume, expected BadCluster (or success)", what, name, e)));
+                    }
+                    continue;
+                }
                 if want_dir && !(name == ".." && is_root) {
                     return Err(fail("C06", "open-dir-refused", format!("{}: open_dir({:?}) = {:?} although the listing contains that directory", what, name, e)));
                 }
@@ -731,7 +773,7 @@ pub fn run_case(c: &DirCase, acc: &mut Acc, check_c06: bool, check_c17: bool, ve
         }
         compare_dir(&*api, root, &root_l, lay.fat32, if phase == 0 { Some(&root_exp) } else { None }, c.lfn_cap as usize, "root directory", acc, check_c06, check_c17)?;
         if check_c06 {
-            lookups(&*api, root, &root_l, true, "root directory", acc)?;
+            lookups(&*api, root, &root_l, true, "root directory", &lay, acc)?;
         }
         if let Some(sl) = &sub_l {
             let sub = match api.open_dir(root, "TESTDIR", Surf::Raii) {
@@ -745,7 +787,7 @@ pub fn run_case(c: &DirCase, acc: &mut Acc, check_c06: bool, check_c17: bool, ve
             };
             compare_dir(&*api, sub, sl, lay.fat32, if phase == 0 { Some(&sub_exp) } else { None }, c.lfn_cap as usize, "sub-directory TESTDIR", acc, check_c06, check_c17)?;
             if check_c06 {
-                lookups(&*api, sub, sl, false, "sub-directory TESTDIR", acc)?;
+                lookups(&*api, sub, sl, false, "sub-directory TESTDIR", &lay, acc)?;
                 // '.' leads to the same directory, '..' to the parent (root)
                 for (nm, want_l) in [(".", sl), ("..", &root_l)] {
                     match api.open_dir(sub, nm, Surf::Raw) {
@@ -760,6 +802,36 @@ pub fn run_case(c: &DirCase, acc: &mut Acc, check_c06: bool, check_c17: bool, ve
             }
             let _ = api.close_dir(sub, Surf::Raw);
             let _ = sub_first;
+        }
+        // whatever a directory entry holds, listing what it leads to must not crash
+        if check_c17 {
+            let mut holders = vec![(root, &root_l, false)];
+            let subh = if sub_l.is_some() { api.open_dir(root, "TESTDIR", Surf::Raw).ok() } else { None };
+            if let (Some(h), Some(sl)) = (subh, sub_l.as_ref()) {
+                holders.push((h, sl, true));
+            }
+            for (parent, l, in_sub) in holders {
+                for s in l.slots.iter().filter(|s| s.kind == SlotKind::Live && s.is_dir() && !s.is_dot() && !s.is_dotdot()).take(8) {
+                    let nm = names::display_name(&s.name());
+                    if names::ref_parse(&nm) != names::RefName::Valid(s.name()) || (!in_sub && nm == "TESTDIR") {
+                        continue;
+                    }
+                    let r = catch_unwind(AssertUnwindSafe(|| {
+                        if let Ok(h) = api.open_dir(parent, &nm, Surf::Raw) {
+                            let mut buf = vec![0u8; c.lfn_cap as usize];
+                            let _ = api.iterate_lfn(h, Surf::Raw, &mut buf, &mut |_, _| {});
+                            let _ = api.close_dir(h, Surf::Raw);
+                        }
+                    }));
+                    acc.class(if lay.in_range(s.first(lay.fat32)) { "probe:dir-entry-in-range" } else { "probe:dir-entry-wild-cluster" });
+                    if let Err(p) = r {
+                        return Err(fail("C17", "listing-panic", format!("listing the directory that entry {:?} (start cluster {:#x}) of the {} leads to panicked: {}", nm, s.first(lay.fat32), if in_sub { "sub-directory" } else { "root directory" }, crate::interp::panic_msg(&p).0)));
+                    }
+                }
+            }
+            if let Some(h) = subh {
+                let _ = api.close_dir(h, Surf::Raw);
+            }
         }
         // every other sub-directory: the directory an entry designates lists as the reader says,
         // and its '..' leads back to the directory holding the entry
@@ -856,6 +928,7 @@ fn item_code(i: &Item) -> u8 {
         Item::LfnSpelling { .. } => 32,
         Item::Label => 33,
         Item::End => 35,
+        Item::WildDir { .. } => 36,
         Item::Junk(_) => 34,
     }
 }
@@ -871,6 +944,7 @@ fn item_name(i: &Item) -> String {
         Item::LfnSpelling { .. } => "lfn-fragment-spelling-a-short-name".into(),
         Item::Label => "label".into(),
         Item::End => "end-marker".into(),
+        Item::WildDir { cluster, .. } => format!("wild-dir:{:#x}", cluster),
         Item::Junk(_) => "junk".into(),
     }
 }
@@ -920,6 +994,7 @@ pub fn item_strategy(c17_bias: bool) -> BoxedStrategy<Item> {
         1 => Just(Item::Label),
         2 => any::<[u8; 32]>().prop_map(Item::Junk),
         1 => Just(Item::End),
+        1 => (entry_name(), prop_oneof![Just(1u32), Just(0x0FFF_FFF0u32), Just(0xFFFF_FFF0u32), Just(0x0FFF_FFFFu32), Just(0xFFF7u32), Just(0xFFFFu32), Just(0x4000_0000u32), (300_000u32..400_000), any::<u32>()]).prop_map(|(name, cluster)| Item::WildDir { name, cluster }),
     ]
     .boxed()
 }
